@@ -29,7 +29,7 @@ def rundir(prop):
 
 def coqc_file(path, timeout=600):
     t0 = time.time()
-    p = subprocess.run(["timeout", str(timeout)] + COQC + [path], capture_output=True, text=True,
+    p = subprocess.run(["timeout", str(timeout)] + COQC + ["-noglob", path], capture_output=True, text=True,
                        cwd=os.path.dirname(path))
     return p.returncode, p.stdout, p.stderr, time.time() - t0
 
